@@ -142,10 +142,10 @@ def make_pair(rng, ts, vt, vu, variant, kind="float", nan_p=0.04):
         if kind == "bool": return not v
         if v != v or abs(v) == INF: return 1.0
         k = rng.random()
-        if k < 0.2 and v != 0: return 2 * v
-        if k < 0.3 and v != 0: return v / 2
-        if k < 0.35: return INF
-        if k < 0.4 and nan_p: return NAN
+        if k < 0.25 and v != 0: return 2 * v
+        if k < 0.4 and v != 0: return v / 2
+        if k < 0.45: return INF
+        if k < 0.5 and nan_p: return NAN
         return v + rng.choice(DELTAS) * rng.choice([1, -1])
     where = None
     if variant == "overlap" and both:
@@ -244,7 +244,7 @@ def run_pair(S, rng, st, su, info, violations, all_tols=False, reps=True):
     S.add(0, 0.0, 0.0, False, st, su, call(lambda: t.equal(u)), dict(info, role="t.equal(u)"), violations)
     S.add(0, 0.0, 0.0, False, su, st, call(lambda: u.equal(t)), dict(info, role="u.equal(t) (symmetry)"), violations)
     if not isbool:
-        tols = TOLS if all_tols else [rng.choice(TOLS)]
+        tols = TOLS if all_tols else [rng.choice(TOLS + [(0.5, 0.0), (0.5, 0.1)])]
         for rtol, atol in tols:
             en = rng.random() < 0.3
             S.add(1, rtol, atol, en, st, su, call(lambda: t.allclose(u, rtol=rtol, atol=atol, equal_nan=en)),
@@ -402,7 +402,7 @@ def run(tier, seed):
     tvals = [(vax, [U.tcode(t) for t in ts]) for combos in uni.values() for ts, pats in combos for vax in pats]
     S = Stream()
     pairs_seen = set(); nontrivial = set(); n_pairs = 0
-    pair_budget = 1100 if quick else 10 ** 9
+    pair_budget = 1200 if quick else 10 ** 9
     all_pairs = []
     for shp, combos in uni.items():
         for ts, pats in combos:
@@ -411,7 +411,7 @@ def run(tier, seed):
                     all_pairs.append((shp, ts, vt, shift(vu, 20), False))
                 # pairs sharing physical axes with vt
                 sh = shared_partners(ts, vt)
-                for vu in (sh if not quick else rng.sample(sh, min(2, len(sh)))):
+                for vu in (sh if not quick else rng.sample(sh, min(4, len(sh)))):
                     all_pairs.append((shp, ts, vt, vu, True))
     n_universe = len(all_pairs)
     if len(all_pairs) > pair_budget:
